@@ -58,6 +58,15 @@ TEMPLATES = [
     ('delete', 'DELETE FROM int1.t1 WHERE a IN (SELECT x FROM int2.t2 WHERE y = {0}) OR b = {1}', ['delete-subquery', 'delete-where']),
     ('window', 'SELECT sum(x + {0}) OVER (PARTITION BY a + {1} ORDER BY b + {2}) AS s FROM int1.t1 WHERE c = {3}', ['window-arg', 'window-partition', 'window-order', 'where']),
     ('tuple', 'SELECT a FROM int1.t1 WHERE (a, b) = ({0}, {1}) AND c = {2}', ['tuple', 'tuple', 'where']),
+    # select list together with positions inside FROM (derived table, JOIN ... ON), CTE bodies and the clauses after WHERE
+    ('select', 'SELECT a, {0} AS k FROM (SELECT a, b FROM int1.t1 WHERE c = {1}) AS s WHERE s.b = {2}', ['select-list', 'from-subquery', 'where']),
+    ('join', 'SELECT t1.a, {0} AS k FROM int1.t1 JOIN int2.t2 ON t1.id = t2.id AND t2.b = {1} WHERE t1.a = {2}', ['select-list', 'join-on', 'where']),
+    ('join', 'SELECT {0} AS k FROM int1.t1 JOIN (SELECT * FROM int2.t2 WHERE b = {1}) AS s ON s.id = t1.id AND s.y = {2}', ['select-list', 'join-right-subquery', 'join-on']),
+    ('cte', 'WITH q AS (SELECT a FROM int1.t1 WHERE b = {0}) SELECT q.a, {1} AS k FROM q JOIN int2.t2 ON q.a = t2.b AND t2.y = {2}', ['cte-body', 'select-list', 'join-on']),
+    ('select', 'SELECT DISTINCT a, {0} AS k FROM int1.t1 WHERE b = {1} GROUP BY a HAVING max(c) > {2} ORDER BY a', ['select-list', 'where', 'having']),
+    ('select', 'SELECT a FROM int1.t1 WHERE EXISTS (SELECT 1 FROM int1.t3 WHERE t3.c = {0}) AND NOT EXISTS (SELECT 1 FROM int1.t3 WHERE t3.c = {1}) AND b = {2}', ['exists', 'not-exists', 'where']),
+    ('union', 'SELECT a FROM int1.t1 WHERE b = {0} UNION SELECT b FROM int2.t2 WHERE y = {1} UNION SELECT c FROM int1.t3 WHERE c = {2}', ['union-left', 'union-middle', 'union-right']),
+    ('insert', 'INSERT INTO int1.t1 (a, b) VALUES ({0} + 1, {1}), (3, {2})', ['insert-values-expr', 'insert-values', 'insert-values-row2']),
 ]
 
 
